@@ -159,25 +159,39 @@ PROPS["C08"] = dict(
     title="Transaction-local semantics: read-your-writes, last write wins, clean rollback",
     modules=["FjallModel.Props.C08"],
     theorems=["Fjall.Tx.c08_ryow", "Fjall.Tx.c08_point_scan_agree", "Fjall.Tx.c08_commit_final_write_once",
-              "Fjall.Tx.c08_commit_equals_view", "Fjall.Tx.c08_read_only_commit_emits_nothing"],
+              "Fjall.Tx.c08_commit_equals_view", "Fjall.Tx.c08_read_only_commit_emits_nothing",
+              "Fjall.Sw.c08_single_writer_serial", "Fjall.Sw.c08_no_lost_update", "Fjall.Sw.c08_snapshot_before_lock_counterexample"],
     statements={
+        "c08_single_writer_serial": "forall thread counts, job lists (write transactions with any program ending in commit / rollback, read-only snapshots) and "
+                                    "thread schedules: at most one thread holds the single-writer lock; the committed log = the committed transactions' batches in "
+                                    "commit order; every committed transaction returned and wrote what it returns and writes when run alone on the log its "
+                                    "predecessors left; every read-only snapshot saw a committed prefix",
+        "c08_no_lost_update": "forall schedules: concurrent read-modify-write appends to one key end in the concatenation of ALL committed pieces in commit order",
+        "c08_snapshot_before_lock_counterexample": "with the snapshot opened before the lock (seeded change C08-1) two appends commit and one byte is stored",
         "c08_ryow": "forall snapshots and in-transaction programs (reads, scans with any bounds, inserts, removes, take/fetch_update/update_fetch "
                     "with any update function, any number of keyspaces): every output = output of a plain map per keyspace with each write applied at once",
         "c08_point_scan_agree": "(k,v) is in the transaction's scan view iff get k = some v",
         "c08_commit_final_write_once": "the commit batch holds, per (keyspace,key) written, exactly the newest entry, once",
         "c08_commit_equals_view": "applying the commit batch to the snapshot gives the transaction's final view",
     },
-    engines=[dict(bin="tx", args=["--mode", "c08"], cases_quick=1600, cases_thorough=40000, profiles=["release"], profiles_thorough=["release", "dev"])],
-    rule="case = one transaction on the optimistic or the single-writer database (random), 1-2 keyspaces seeded with random rows, 3-25 ops over a "
+    engines=[dict(bin="tx", args=["--mode", "c08"], cases_quick=1600, cases_thorough=40000, profiles=["release"], profiles_thorough=["release", "dev"]),
+             dict(bin="swtx", args=[], cases_quick=240, cases_thorough=6000, profiles=["release"], profiles_thorough=["release", "dev"])],
+    rule="swtx: case = 2-5 real threads with 1-3 jobs each (write transactions ending commit / rollback / drop, read-only snapshots; counter-style "
+         "read-modify-writes on a hot key) on a SingleWriterTxDatabase, stepped one at a time through the pause points swtx.locked / swtx.committed and "
+         "harness points between operations under a random schedule incl. block probes (a write_tx released while the lock is held must not get "
+         "through); every step's outcome compared with the Lean Sw model; oracles: lock holders never overlap, every transaction's observations = "
+         "serial replay on a plain map at its commit point (read-only: at its snapshot), final content. non-trivial = >= 2 threads committed and a "
+         "thread stepped or probed while another held the lock. tx --mode c08: case = one transaction on the optimistic or the single-writer database (random), 1-2 keyspaces seeded with random rows, 3-25 ops over a "
          "small colliding key alphabet (all read methods, all write methods, 5 update-function families), ending commit / rollback / drop; every "
          "output compared with the Lean model and with a BTreeMap overlay oracle; content outside the transaction sampled before commit; final "
          "content compared. non-trivial = a key written >= 2x, or a scan after a write to that keyspace",
     trusted_base=["lsm-tree's merge of the ephemeral memtable into scans is modelled as 'own newest entry wins' and exercised",
-                  "single-writer seriality across threads (the mutex) is covered by the Conc stage"],
-    assumptions=["the snapshot is frozen (C05)", "one thread drives the transaction"],
+                  "the commit of a single-writer transaction is one step of the Sw model: its atomicity / visibility before return is C06's theorem"],
+    assumptions=["the snapshot is frozen (C05)", "all writes go through the transactional keyspace handles (inner() is doc-hidden and bypasses the lock)"],
     level_text="Lean 4 refinement proof: the transaction model refines a plain map per keyspace for every program; commit batch characterised exactly; "
-               "tied to both transactional databases by per-operation output comparison",
-    level_note="trusted: Lean kernel; harness; lsm-tree memtable/merge; thread exclusion of single-writer transactions not yet in the model",
+               "single-writer transactions serial for every thread schedule (invariant over the Sw thread model); "
+               "tied to both transactional databases by per-operation output comparison and by schedule-controlled real threads",
+    level_note="trusted: Lean kernel; harness; lsm-tree memtable/merge; std::sync::Mutex",
     technique="Lean 4 proof (forward simulation to a reference map, list lemmas) + differential correspondence",
     design_ref="6 C08",
 )
